@@ -32,6 +32,7 @@ class _InMemoryConsumer(ConsumerT):
 
         self._paused = asyncio.Lock()
         self._started = False
+        self.__taken_from_delayed: datetime | None = None
 
         self.__category_to_consume = {
             MessageCategory.NORMAL: self.__consume_normal,
@@ -86,6 +87,7 @@ class _InMemoryConsumer(ConsumerT):
             return None
 
         soonest = min(self._queue.delayed)
+        self.__taken_from_delayed = soonest
 
         if len(self._queue.delayed[soonest]) == 1:
             return self._queue.delayed.pop(soonest)[0]
@@ -118,6 +120,11 @@ class _InMemoryConsumer(ConsumerT):
                 self.__update_delayed()
 
         self._queue.processing.add(msg)
+        # remember the source category, so that reject can return the message there
+        self._queue.taken_from[msg.key.id_] = (
+            self.category.value,
+            self.__taken_from_delayed if self.category == MessageCategory.DELAYED else None,
+        )
 
         await asyncio.sleep(0)
         return (msg.key, msg.payload, msg.parameters)
